@@ -340,9 +340,16 @@ func runCheck(repo, verif, prop, tier string, seed int, overlay map[string][]byt
 			retry = append(retry, o)
 		}
 	}
+	if len(retry) > 12 {
+		// that many undecided obligations are not a load problem; keep the verdicts
+		for _, o := range retry {
+			o.Result, o.Solver = "timeout", "undecided (first pass)"
+		}
+		retry = nil
+	}
 	if len(retry) > 0 {
 		d2 := newDischarger(tier)
-		d2.quickS, d2.fullS = 10, d.fullS*3
+		d2.quickS, d2.fullS = 10, d.fullS*2
 		d2.dischargeAll(retry, 4)
 		rep.Notes = append(rep.Notes, fmt.Sprintf("%d obligations were undecided in the first pass and rerun with a longer budget", len(retry)))
 	}
